@@ -33,6 +33,9 @@ Inductive case :=
 | CCssSrc (tbl : list ctrig_entry) (g : box_geom) (fs : list css_src) (has : bool) (out : T)
     (* end to end: functions as written in the style sheet, the laid-out border box,
        computed transform-origin; has/out = the Transform call the backend received *)
+| CCssInline (has : bool)
+    (* a `transform` on a box that may be split into several inline-level boxes (a plain inline
+       box) does not apply (CSS Transforms 1, "transformable element"): no Transform call *)
 | CSvg (tr : list trig_entry) (l : list svg_src) (out : T)
 | CSvgDraw (tr : list trig_entry) (l : list svg_src) (has : bool) (out : T)
     (* end to end: <rect transform="..."> drawn by svg.Parse + Draw; has/out = the Transform call
@@ -94,6 +97,7 @@ Definition model_out_ar (ar : arith) (c : case) : list Q :=
       let m := css_matrix ar g (map (css_normalise (ctrig_of tbl)) fs) in
       (* draw.go:252-259: nothing is sent when the determinant is 0 *)
       if Qeq_bool (determinant ar m) 0 then [0] else 1 :: tlist m
+  | CCssInline _ => [0]
   | CSvg tbl l _ => tlist (svg_aggregate ar (trig_of tbl) l)
   | CSvgDraw tbl l _ _ =>
       match l with
@@ -113,6 +117,7 @@ Definition impl_out (c : case) : list Q :=
   | CMulChain _ out | CMul3 _ _ _ out | COps _ _ out | CCss _ _ out | CSvg _ _ out => tlist out
   | CCssSrc _ _ _ has out => if has then 1 :: tlist out else [0]
   | CSvgDraw _ _ has out => if has then 1 :: tlist out else [0]
+  | CCssInline has => if has then [1] else [0]
   | CInvert _ ok out => if ok then 1 :: tlist out else [0]
   | CApply _ _ _ ox oy => [ox; oy]
   | CDet _ d => [d]
